@@ -18,6 +18,10 @@ if os.environ.get("VERIF_REPO") and os.environ["VERIF_REPO"] != "/repo":
 
 from lib import common  # noqa: E402
 
+import logging  # noqa: E402
+
+logging.getLogger("sqlglot").setLevel(logging.ERROR)  # 'contains unsupported syntax' warnings are noise here
+
 
 def main() -> int:
     if len(sys.argv) < 3:
